@@ -8,7 +8,7 @@ from . import _rulecommon as RC
 
 MANIFEST = dict(
     technique="runtime contract on apply_to (entry shadow, exit truth-value comparison of the two equations by an exact rational evaluator at random points and at solved witnesses; structural side conditions of balanced move); equation workloads built around known solutions",
-    text="Every rule application on a tree whose root is '=' is decided at exit: the result must be an equation; at every sampled assignment and at witnesses that solve the before- or the after-equation (solved affine roots, workload-supplied solutions) both equations have the same truth value; a balanced addition move must move a top-level addend (ancestors below the root are + or the left of -) and a balanced division never has the constant 0 as divisor. Held on the applications observed.",
+    text="Every rule application on a tree whose root is '=' is decided at exit: the result must be an equation; at every sampled assignment and at witnesses that solve the before- or the after-equation (solved affine roots, workload-supplied solutions) both equations have the same truth value; a balanced addition move must move a top-level addend (ancestors below the root are + or the left of -) and a balanced division never has the constant 0 as divisor. In-place chains (several rules applied to one tree object without re-cloning) are compared with the start equation after every step. Float folds are made exact by working out the rational each new float constant stands for. Held on the applications observed.",
     note="Trusts the exact evaluator; solution-set equality is sampled (random rational points + witnesses), not proved; equations without any witness found are counted as inconclusive.",
     ref="DESIGN.md 3/C02",
 )
